@@ -1,5 +1,6 @@
 import CM.Driver.Json
 import CM.Model.Exit
+import CM.Driver.OpsRS
 open Lean
 namespace CM.Driver
 
@@ -34,6 +35,13 @@ def dispatch (j : Json) : Except String Json := do
   match op with
   | "ping" => pure (jobj [("pong", jbool true)])
   | "exit_status" => opExit j
+  | "rs_merge" => opRsMerge j
+  | "rs_fold" => opRsFold j
+  | "rs_add" => opRsAdd j
+  | "sonar_read" => opSonarRead j
+  | "sarif_read" => opSarifRead j
+  | "dd_read" => opDdRead j
+  | "detect_tools" => opDetectTools j
   | _ => .error s!"bad-op: unknown op {op}"
 
 end CM.Driver
